@@ -136,7 +136,7 @@ func registerVrt(w *World) {
 			}
 			return nil
 		}
-		in.pc = append(in.pc, c)
+		in.addPC(c)
 		if r, _ := in.query(); r == Unsat {
 			in.end("assumed", "assumption unsatisfiable")
 		}
@@ -260,8 +260,7 @@ func registerVrt(w *World) {
 		name := cstr(in, args[0])
 		spec := in.spec
 		spec.NumForms = cint(in, args[1])
-		nt := in.symNumText(name, &spec)
-		s := &StrV{Num: nt}
+		s := in.symNumStr(name, &spec)
 		in.Draws = append(in.Draws, &Draw{Kind: "jnum", Name: name, S: s})
 		return s
 	}
